@@ -118,7 +118,8 @@ def run(ck, m):
         # a reader that hands every entry to a caller-supplied predicate: the callers are judged
         dyn = [i for i in range(1, b.argc + 1) if b.locals[i].startswith('&dyn ') and 'nundb::bo::Value' in b.locals[i] and '-> bool' in b.locals[i]]
         if dyn:
-            callers = P.callers().get(b.id, [])
+            # snapshot/export callers in the storage strategies are judged by C06 / C18
+            callers = [(cb, bi) for cb, bi in P.callers().get(b.id, []) if not cb.id.startswith('nundb::storage::s3')]
             okc = bool(callers) and all(state_tests(m, cb) > 0 for cb, _ in callers)
             ck.ob('C01.b', fn, 'delegates-to-caller-predicate', okc,
                   'every caller of %s supplies a predicate that looks at the entry state (%s)' % (fn, [short(cb.id) for cb, _ in callers]) if okc else
